@@ -48,7 +48,77 @@ func dominatingConds(b *ssa.BasicBlock) []domCond {
 			}
 		}
 	}
-	return out
+	return withNilTestsNormalised(out)
+}
+
+// nilTestCache: one synthetic `x != nil` per `x == nil` (or `nil != x`) comparison, so identity tests keep working.
+var nilTestCache = map[*ssa.BinOp]*ssa.BinOp{}
+
+// withNilTestsNormalised adds, for every nil test written `x == nil` (or with nil on the left), the same fact in the
+// form the rules read — `x != nil` with the opposite outcome. The synthetic comparison belongs to no block.
+func withNilTestsNormalised(conds []domCond) []domCond {
+	n := len(conds)
+	for i := 0; i < n; i++ {
+		dc := conds[i]
+		bo, ok := dc.cond.(*ssa.BinOp)
+		if !ok || (bo.Op != token.EQL && bo.Op != token.NEQ) {
+			continue
+		}
+		x, y := bo.X, bo.Y
+		if isNilConst(x) && !isNilConst(y) {
+			x, y = y, x
+		}
+		if !isNilConst(y) || isNilConst(x) {
+			continue
+		}
+		if bo.Op == token.NEQ && x == bo.X {
+			continue // already in the canonical form
+		}
+		syn, ok := nilTestCache[bo]
+		if !ok {
+			syn = &ssa.BinOp{Op: token.NEQ, X: x, Y: y}
+			nilTestCache[bo] = syn
+		}
+		outcome := dc.outcome
+		if bo.Op == token.EQL {
+			outcome = !outcome
+		}
+		conds = append(conds, domCond{syn, outcome, dc.at})
+	}
+	return withComparisonsRespelled(conds)
+}
+
+// spellCache: the synthetic respellings of one comparison, created once so that identity tests stay stable.
+var spellCache = map[*ssa.BinOp][3]*ssa.BinOp{}
+
+// withComparisonsRespelled adds, for every ordering or equality comparison among the facts, its three other spellings:
+// `a < b` true is also `b > a` true, `a >= b` false and `b <= a` false. A rule that reads one spelling then reads them
+// all; the synthetic comparisons belong to no block and come after the real ones.
+func withComparisonsRespelled(conds []domCond) []domCond {
+	mirror := map[token.Token]token.Token{token.LSS: token.GTR, token.GTR: token.LSS, token.LEQ: token.GEQ, token.GEQ: token.LEQ, token.EQL: token.EQL, token.NEQ: token.NEQ}
+	negate := map[token.Token]token.Token{token.LSS: token.GEQ, token.GEQ: token.LSS, token.GTR: token.LEQ, token.LEQ: token.GTR, token.EQL: token.NEQ, token.NEQ: token.EQL}
+	n := len(conds)
+	for i := 0; i < n; i++ {
+		dc := conds[i]
+		bo, ok := dc.cond.(*ssa.BinOp)
+		if !ok {
+			continue
+		}
+		if _, isCmp := mirror[bo.Op]; !isCmp || bo.Block() == nil {
+			continue // not a comparison, or already synthetic
+		}
+		sp, ok := spellCache[bo]
+		if !ok {
+			sp = [3]*ssa.BinOp{
+				{Op: mirror[bo.Op], X: bo.Y, Y: bo.X},         // same outcome
+				{Op: negate[bo.Op], X: bo.X, Y: bo.Y},         // opposite outcome
+				{Op: mirror[negate[bo.Op]], X: bo.Y, Y: bo.X}, // opposite outcome
+			}
+			spellCache[bo] = sp
+		}
+		conds = append(conds, domCond{sp[0], dc.outcome, dc.at}, domCond{sp[1], !dc.outcome, dc.at}, domCond{sp[2], !dc.outcome, dc.at})
+	}
+	return conds
 }
 
 // sameSlice reports whether two values denote the same slice/string: the same
